@@ -475,6 +475,7 @@ static int CEscapeInternal(const char* src, int src_len, char* dest,
       case '\"': dest[used++] = '\\'; dest[used++] = '\"'; break;
       case '\'': dest[used++] = '\\'; dest[used++] = '\''; break;
       case '\\': dest[used++] = '\\'; dest[used++] = '\\'; break;
+      case '?':  dest[used++] = '\\'; dest[used++] = '?';  break; // no trigraphs ("??/" is a backslash in C99)
       default:
         // Note that if we emit \xNN and the src character after that is a hex
         // digit then that digit must be escaped too to prevent it being
